@@ -9,6 +9,7 @@ import (
 	"go/parser"
 	"go/token"
 	"go/types"
+	"os"
 	"sort"
 	"strings"
 
@@ -1177,7 +1178,7 @@ func ruleReject(c *Ctx) {
 		{"op", "BPM.validate", "tempo 0", u(0)},
 		// dictionary entries without a name are refused whatever else they carry
 		{"chord", "Attribute.validate", "unnamed attribute with a degree", structFval(map[string]fval{"Name": {k: constant.MakeString("")}, "Degree.Value": u(4), "Degree.Name": {k: constant.MakeInt64(1)}})},
-		{"chord", "Chord.validate", "unnamed chord with attributes", structFval(map[string]fval{"Name": {k: constant.MakeString("")}, "Extends": {k: constant.MakeString("MajorTriad")}, "Meta.Display": {k: constant.MakeString("x")}})},
+		{"chord", "Chord.validate", "unnamed chord with attributes", structFval(map[string]fval{"Name": {k: constant.MakeString("")}, "Extends": {k: constant.MakeString("MajorTriad")}, "Meta.Display": {k: constant.MakeString("x")}, "Attributes": {cv: &ListV{T: types.NewSlice(types.Typ[types.String]), Elems: []Val{&CVal{V: constant.MakeString("MajorThird"), T: types.Typ[types.String]}}}}})},
 	}
 	for _, cs := range cases {
 		fn := c.fn(cs.pkg, cs.fn)
@@ -1203,6 +1204,50 @@ func ruleReject(c *Ctx) {
 			c.bad(key, c.pos(ret.Pos()), fname(fn), fmt.Sprintf("validator accepts %s (its feasible path ends in `return nil`): the nonsense value reaches a MIDI file", cs.label))
 		default:
 			c.ok(key, c.pos(ret.Pos()), fname(fn), cs.label+" is refused")
+		}
+	}
+	// ... and no more than that: values that mean something are accepted (a validator that grows a new condition must not
+	// refuse what the notation can say). Chord symbols: every run of runes the lexer takes for a symbol is a display.
+	strF := func(s string) fval { return fval{k: constant.MakeString(s), t: types.Typ[types.String]} }
+	chordWith := func(name, display string) fval {
+		l := &ListV{T: types.NewSlice(types.Typ[types.String]), Elems: []Val{&CVal{V: constant.MakeString("Major3"), T: types.Typ[types.String]}}}
+		return fval{fields: map[string]fval{"Name": strF(name), "Meta": {fields: map[string]fval{"Display": strF(display)}}, "Attributes": {cv: l, t: l.T}, "Extends": strF("")}}
+	}
+	accepts := []struct {
+		pkg, fn, label string
+		recv           fval
+	}{
+		{"chord", "Chord.validate", "a display with a sharp (7#11)", chordWith("SharpEleven", "7#11")},
+		{"chord", "Chord.validate", "a display with letters, digits and b (m7b5)", chordWith("HalfDim", "m7b5")},
+		{"chord", "Chord.validate", "a display of signs (+)", chordWith("Plus", "+")},
+		{"chord", "Chord.validate", "a display with parentheses and a comma-free alteration ((b9))", chordWith("FlatNine", "7(b9)")},
+		{"chord", "Chord.validate", "a non-ASCII display (Δ7)", chordWith("Delta", "Δ7")},
+		{"chord", "Chord.validate", "a long name with digits", chordWith("Added2nd", "add2")},
+		{"op", "Meter.validate", "12/8", structFval(map[string]fval{"Rat.Num": u(12), "Rat.Denom": u(8)})},
+		{"op", "Meter.validate", "1/1", structFval(map[string]fval{"Rat.Num": u(1), "Rat.Denom": u(1)})},
+		{"op", "Meter.validate", "255/128", structFval(map[string]fval{"Rat.Num": u(255), "Rat.Denom": u(128)})},
+		{"op", "BPM.validate", "tempo 1", u(1)},
+		{"op", "BPM.validate", "tempo 30", u(30)},
+		{"op", "BPM.validate", "tempo 600", u(600)},
+		{"note", "Value.validate", "1/2048", structFval(map[string]fval{"Rat.Num": u(1), "Rat.Denom": u(2048)})},
+		{"note", "Value.validate", "300/1", structFval(map[string]fval{"Rat.Num": u(300), "Rat.Denom": u(1)})},
+	}
+	for _, cs := range accepts {
+		fn := c.fn(cs.pkg, cs.fn)
+		if fn == nil {
+			continue
+		}
+		c.site(1)
+		key := cs.pkg + "." + cs.fn + "|accepts|" + cs.label
+		r, err := c.newFolder().foldMethod(fn, cs.recv, nil)
+		switch {
+		case err != nil || !(r.isNil || r.nonNil):
+			// nothing can be said (the validator does not fold for this value): no claim either way
+			c.ok(key, c.pos(fn.Pos()), fname(fn), "not decided by folding for this value (no claim)")
+		case r.nonNil:
+			c.bad(key, c.pos(fn.Pos()), fname(fn), fmt.Sprintf("validator refuses %s: a value the notation can say and the tools can print is no longer usable", cs.label))
+		default:
+			c.ok(key, c.pos(fn.Pos()), fname(fn), cs.label+" is accepted")
 		}
 	}
 	// what the validators judge is what was written: at every call of a validating constructor in the reading layers, an
@@ -1487,8 +1532,30 @@ func (c *Ctx) panicPrimitiveCall(ci ssa.CallInstruction) bool {
 // reviewedAsserts: unchecked type assertions that cannot fail, with the reason.
 var reviewedAsserts = map[string]string{}
 
+// runsWithoutInput: fn has no parameters and captures nothing, and folding it - its one and only execution - reaches a
+// return with every call inside followed to its end: no panic on the way.
+func (c *Ctx) runsWithoutInput(fn *ssa.Function) bool {
+	if len(fn.Params) != 0 || len(fn.FreeVars) != 0 || fn.Parent() != nil {
+		return false
+	}
+	fd := c.newFolder()
+	fd.maxSteps = 400000
+	fd.maxDepth = 12
+	_, err := fd.foldCall(fn, nil)
+	if os.Getenv("CRDCHECK_DEBUG") != "" {
+		fmt.Fprintf(os.Stderr, "runsWithoutInput(%s): %v failed=%v incomplete=%v\n", fname(fn), err, fd.failedCalls, fd.incomplete)
+	}
+	return err == nil && len(fd.failedCalls) == 0 && len(fd.incomplete) == 0 && fd.panicked == ""
+}
+
 func ruleMust(c *Ctx) {
 	c.checkDecodedNilElements()
+	// the attribute generator at the ends of its range: `crd gen attr -d 0` and `-d 1` print an empty list
+	if gf := c.fn("chord", "GenerateAttributes"); gf != nil {
+		c.site(1)
+		problem := c.generateAttributesAtBounds()
+		c.check(problem == "", "chord.GenerateAttributes|bounds", c.pos(gf.Pos()), fname(gf), "GenerateAttributes(0) and (1) do not panic (folded)", fname(gf)+": "+problem)
+	}
 	var fns []*ssa.Function
 	for _, fn := range c.repoFuncs() {
 		if fn.Synthetic == "" {
@@ -1704,6 +1771,8 @@ func ruleMust(c *Ctx) {
 			default:
 				if why, ok := reviewedMustSites[key]; ok {
 					c.ok(key, c.pos(ci.Pos()), caller, "reviewed: "+why)
+				} else if c.runsWithoutInput(fn) {
+					c.ok(key, c.pos(ci.Pos()), caller, "the caller takes no input and was folded to its end, every call followed: it does not panic")
 				} else {
 					c.bad(key, c.pos(ci.Pos()), caller, fmt.Sprintf("%s panics on invalid input and is called here with a value that is not a compile-time constant: a user-supplied value (flag, YAML field, text metadata) that is well-formed but unsupported crashes crd instead of producing an error", cn))
 				}
@@ -2426,6 +2495,69 @@ func ruleLookup(c *Ctx) {
 			if ok && n == "Degree" && len(news) > 0 && missBefore(rc, news[0]) {
 				good = true
 			}
+		}
+		// ... and nothing else is refused here: an error is returned only where a callee reported one or a lookup missed (a
+		// check added on the reading side only - of metadata keys, of ranges - refuses documents `text conv` prints)
+		{
+			c.site(1)
+			refusal := ""
+			for _, f := range c.regionFuncChainsList(fn) {
+				if pkgOfFunc(f) != pkgOfFunc(fn) {
+					continue
+				}
+				// the function itself and helpers split off from it; the flag getters and the other named steps of the
+				// reviewed tree have refusals of their own, judged by their own rules
+				if _, reviewed := anchorSigs["cmd|"+f.Name()]; reviewed && f != fn {
+					continue
+				}
+				for _, r := range returnsOf(f) {
+					if len(r.Results) < 1 {
+						continue
+					}
+					last := r.Results[len(r.Results)-1]
+					if !isErrorType(last.Type()) || isNilConst(last) {
+						continue
+					}
+					// an error handed on from a callee as it is (tested against nil on the way)
+					handedOn := false
+					switch e := last.(type) {
+					case *ssa.Extract:
+						handedOn = true
+					case *ssa.Call:
+						_ = e
+					case *ssa.Phi:
+						handedOn = true
+					}
+					if handedOn {
+						continue
+					}
+					failed := false
+					for _, pc := range pathConds(r.Block()) {
+						switch x := pc.cond.(type) {
+						case *ssa.Extract:
+							if _, isCall := x.Tuple.(*ssa.Call); isCall && !pc.side {
+								failed = true // comma-ok of a lookup, false side
+							}
+							if _, isLk := x.Tuple.(*ssa.Lookup); isLk && !pc.side {
+								failed = true
+							}
+						case *ssa.UnOp:
+							if ex, ok := x.X.(*ssa.Extract); ok && x.Op == token.NOT && pc.side {
+								_ = ex
+								failed = true
+							}
+						case *ssa.BinOp:
+							if (isNilConst(x.X) || isNilConst(x.Y)) && (isErrorType(x.X.Type()) || isErrorType(x.Y.Type())) && (x.Op == token.NEQ) == pc.side {
+								failed = true // a callee's error, on the side where there is one
+							}
+						}
+					}
+					if !failed {
+						refusal = "an error is made up at " + c.pos(r.Pos()) + " in " + fname(f) + " without a failed lookup or a callee's error in front of it"
+					}
+				}
+			}
+			c.check(refusal == "", "cmd.newWriteCmdArgsFromInputInstances|refusals", c.pos(fn.Pos()), fname(fn), "an instance is refused only when a callee refuses it or a lookup misses", fname(fn)+": "+refusal+": documents that `text conv` / `write conv` print are refused by `write`")
 		}
 		c.check(good, key, c.pos(fn.Pos()), fname(fn), "a chord without a valid degree is an error before the chord is built", "an instance whose chord has no `degree` key (yaml leaves the zero Degree, UnmarshalYAML is not called for an absent key) is not refused: `crd write parse` / `write conv` print `degree: %!s(PANIC=String method: InvalidDegree)0` and exit 0")
 	}
